@@ -137,3 +137,36 @@ def compare_stream_slice(qs, sres, bres, data, fam):
         if kind in BOTH_WAYS and a != "E" and b == "E":
             return "query #%d %s: stream succeeds (%s) where the slice parser fails" % (k, q[:60], a[:150])
     return None
+
+
+def covering_variant(rng, data, meta):
+    """the sections a multi-range query holds at once (symbol table + its string table, the version sections + theirs)
+    made to overlap and to cover (almost) the whole file, so the bytes cached by one query exceed the stream's length.
+    Returns (data, queries) or None"""
+    o = fileq.py_open("any", data)
+    hs = fileq.py_shdrs(o, data) if o else None
+    if not hs:
+        return None
+    ln = len(data)
+    d2, hit = data, False
+    for k, h in enumerate(hs):
+        if not h:
+            continue
+        if h["sh_type"] in (2, 11, 0x6fffffff) and h["sh_entsize"]:
+            es = h["sh_entsize"]
+            d2 = elfgen.patch(d2, meta, "shdr", "sh_offset", 0, k)
+            d2 = elfgen.patch(d2, meta, "shdr", "sh_size", (ln - rng.choice([0, 1, 16])) // es * es, k)
+            lk = h["sh_link"]
+            if lk < len(hs) and hs[lk]:
+                d2 = elfgen.patch(d2, meta, "shdr", "sh_offset", rng.choice([0, 0, 1]), lk)
+                d2 = elfgen.patch(d2, meta, "shdr", "sh_size", ln - 1, lk)
+            hit = True
+        elif h["sh_type"] in (0x6ffffffd, 0x6ffffffe) and rng.random() < 0.5:
+            d2 = elfgen.patch(d2, meta, "shdr", "sh_offset", 0, k)
+            d2 = elfgen.patch(d2, meta, "shdr", "sh_size", ln, k)
+            hit = True
+    if not hit:
+        return None
+    qs = ["symtab", "dynsym", "symver 0 1 2", "symtab", "dynsym"]
+    rng.shuffle(qs)
+    return d2, qs
